@@ -48,6 +48,10 @@ pub enum GitOp {
     /// checkpoint update without --id while HEAD names a branch that has no commit yet (a fresh repository, an
     /// orphan branch): there is no commit to record, the update must fail and leave the store alone
     CpUpdateUnborn { pending: bool },
+    /// checkpoint update --pending [--id #n] while an untracked unix socket lies in a target directory (it
+    /// cannot be opened, so its checksum cannot be taken): the update fails and must leave the store alone;
+    /// the socket is removed again afterwards
+    CpUpdateUnreadable { id: Option<usize> },
 }
 
 #[derive(Clone, Debug, Default)]
